@@ -89,6 +89,13 @@ func (o *objectGoMapSimple) defineOwnPropertyStr(name unistring.String, descr Pr
 
 	n := name.String()
 	if o.extensible || o._hasStr(n) {
+		if descr.Value == nil {
+			// a descriptor without [[Value]] leaves an existing entry as it is and creates a new one as undefined
+			if !o._hasStr(n) {
+				o.data[n] = nil
+			}
+			return true
+		}
 		o.data[n] = descr.Value.Export()
 		return true
 	}
